@@ -117,6 +117,7 @@ impl <T: ArrayElement> ArrayReorder<T> for Array<T> {
             Some(axes) => {
                 let self_shape = self.shape.clone();
                 let axes = axes.into_iter().map(|i| self.normalize_axis(i)).collect::<Vec<usize>>();
+                for &ax in &axes { self.axis_in_bounds(ax)?; }
 
                 let mut elements = self.elements.clone();
                 for ax in axes {
@@ -171,6 +172,8 @@ impl <T: ArrayElement> ArrayReorder<T> for Array<T> {
             *shifts.entry(*a).or_insert(0) += *b;
         }
 
+
+        for &ax in shifts.keys() { array.axis_in_bounds(ax)?; }
 
         let mut elements = array.get_elements()?;
         match array.ndim()? {
